@@ -25,7 +25,7 @@ add('KF-ack-after-reap', ['C01', 'C04'],
     {'ack_after_reap': True, 'lane': 'sim'},
     'worker death noticed (reaped) before its ACK was processed: the job is examined again only when some other worker exits later, and is then reported with "exitcode 0" instead of the real status (_join_exited_workers only looks at jobs when it cleaned a worker; exit status of earlier reaped workers is forgotten)')
 add('KF-send-failed-residue', ['C01'], ['job_cache_not_empty_at_quiescence'],
-    {'send_failed': True, 'lane': 'sim'},
+    {'send_failed': True, 'lane': ['sim', 'real']},
     'apply_async whose task could not be sent: the job is failed correctly but its cache entry is never removed (ApplyResult._set pops the entry only for accepted jobs)')
 add('KF-send-failed-residue', ['C10'], ['slots_not_all_free_at_quiescence'],
     {'send_failed': True, 'lane': 'sim'},
@@ -42,6 +42,11 @@ add('KF-terminate-no-threads-idle', ['C08'], ['terminate_hung'],
 add('KF-ack-after-reap', ['C04', 'C01'], ['loss_never_reported', 'loss_message_wrong_status', 'loss_reported_late'],
     {'ack_after_reap': True, 'lane': 'real'},
     'worker death noticed (reaped) before its ACK was processed (result-handler thread delayed): the job is examined again only when some other worker exits later, and is then reported with "exitcode 0" (real-pool occurrence of KF-ack-after-reap)')
+
+add('KF-idle-lock-holder-killed', ['C09'],
+    ['job_failed_after_idle_worker_died', 'pool_hung_while_recycling', 'pool_size_not_restored'],
+    {'hard_kill_of_lock_holder': True, 'lane': 'real', 'scenario': 'kill_idle'},
+    'an idle worker killed by an unhandled signal (KILL, SEGV, ...) while it sits in the blocking receive holding the task queue\'s read lock: the POSIX semaphore is never released, every other worker blocks on it and no later job is served')
 
 fixed = json.load(open(here + '/known_fixed.json')) if os.path.exists(here + '/known_fixed.json') else []
 json.dump({'findings': F, 'fixed': fixed}, open(here + '/known_findings.json', 'w'), indent=1)
